@@ -279,11 +279,11 @@ def loopback_case(res, rng, sizes, pacing, sndbuf, case_id, bound=120.0):
         finished.set()
     threading.Thread(target=sender, daemon=True).start()
     case = {"kind": "loopback", "sizes": sizes, "pacing": pacing, "sndbuf": sndbuf, "id": case_id}
-    if not finished.wait(bound):
+    if not M.wait_event(finished, bound):
         res.violate("loopback-send-hang", f"send_data did not return within {bound:.0f} s although the peer keeps reading", case, None, len(results))
         return
     acc.close()
-    if not done.wait(bound):
+    if not M.wait_event(done, bound):
         res.violate("loopback-read", "peer did not see EOF", case)
         return
     cli.close()
@@ -313,16 +313,20 @@ def close_after_send_case(res, rng, size, bound=40.0):
     case = {"kind": "close-after-send", "size": size}
     peer = socket.socket()
     peer.setsockopt(socket.SOL_SOCKET, socket.SO_RCVBUF, 64 * 1024)
-    for _ in range(60):
+    end = time.monotonic() + M.bound(3.0)
+    while True:
         try:
             peer.connect(("127.0.0.1", port))
             break
         except OSError:
+            if time.monotonic() >= end:
+                peer = None
+                break
             time.sleep(0.05)
-    else:
+    if peer is None:
         res.violate("loopback-listen", "passive transport does not accept a connection within 3 s of enable()", case)
         return
-    if not connected.wait(5):
+    if not M.wait_event(connected, 5):
         res.violate("loopback-listen", "passive transport did not report the connection within 5 s", case)
         return
     payload = rng.bytes(size)
@@ -333,7 +337,7 @@ def close_after_send_case(res, rng, size, bound=40.0):
     err = []
 
     def reader():
-        peer.settimeout(15)
+        peer.settimeout(120)
         try:
             while len(received) < size - 768 * 1024:       # drains quickly; the rest is left to the socket buffers
                 d = peer.recv(256 * 1024)
@@ -347,7 +351,7 @@ def close_after_send_case(res, rng, size, bound=40.0):
                     break
                 received.extend(d)
                 time.sleep(0.01)
-            closed_locally.wait(20)                        # busy for a moment: the endpoint closes meanwhile
+            closed_locally.wait(120)                        # busy for a moment: the endpoint closes meanwhile
             time.sleep(0.2)
             while True:
                 d = peer.recv(256 * 1024)
@@ -368,12 +372,12 @@ def close_after_send_case(res, rng, size, bound=40.0):
         closed_locally.set()
         finished.set()
     threading.Thread(target=sender, daemon=True).start()
-    if not finished.wait(bound):
+    if not M.wait_event(finished, bound):
         reported.set()
         closed_locally.set()
         res.violate("loopback-send-hang", f"send_data()/disable() did not return within {bound:.0f} s although the peer reads", case, None, result)
         return
-    reader_done.wait(20)
+    M.wait_event(reader_done, 20)
     peer.close()
     res.count(("close-after-send", size), sample={"op": "passive transport: send, disable() at once, slow peer reads to EOF", "size": size,
                                                   "send_data": result, "peer_read": len(received)})
@@ -396,7 +400,7 @@ def stalled_peer_case(res, rng, size, t8, stall, bound=40.0):
     srv.setsockopt(socket.SOL_SOCKET, socket.SO_RCVBUF, 64 * 1024)       # inherited by the accepted socket
     srv.bind(("127.0.0.1", 0))
     srv.listen(1)
-    srv.settimeout(6)
+    srv.settimeout(M.bound(6))
     port = srv.getsockname()[1]
     settings = secsgem.hsms.HsmsSettings(address="127.0.0.1", port=port, connect_mode=secsgem.hsms.HsmsConnectMode.ACTIVE, t8=t8, t5=30)
     conn = settings.create_connection()
@@ -409,7 +413,7 @@ def stalled_peer_case(res, rng, size, t8, stall, bound=40.0):
     except OSError:
         res.violate("loopback-listen", "active transport did not connect within 6 s of enable()", case)
         return
-    if not connected.wait(5):
+    if not M.wait_event(connected, 5):
         res.violate("loopback-listen", "active transport did not report the connection within 5 s", case)
         return
     payload = rng.bytes(size)
@@ -419,7 +423,7 @@ def stalled_peer_case(res, rng, size, t8, stall, bound=40.0):
     err = []
 
     def reader():
-        peer.settimeout(stall + 15)
+        peer.settimeout(stall + 120)
         try:
             while len(received) < size - 512 * 1024:
                 d = peer.recv(256 * 1024)
@@ -445,11 +449,11 @@ def stalled_peer_case(res, rng, size, t8, stall, bound=40.0):
         reported.set()
         finished.set()
     threading.Thread(target=sender, daemon=True).start()
-    if not finished.wait(bound):
+    if not M.wait_event(finished, bound):
         reported.set()
         res.violate("loopback-send-hang", f"send_data() did not return within {bound:.0f} s although the peer reads", case, None, result)
         return
-    reader_done.wait(stall + 20)
+    M.wait_event(reader_done, stall + 20)
     res.count(("stalled-peer", size, t8, stall), sample={"op": "active transport: send reported, peer stalls longer than T8, then reads on", **case,
                                                          "send_data": result, "peer_read": len(received)})
     res.bump("stalled_peer", f"send_data={result} complete={bytes(received[:size]) == payload}")
@@ -480,7 +484,7 @@ def send_message_once_case(res, rng):
         frame = msg.blocks[0].encode()
         out, done = [], threading.Event()
         threading.Thread(target=lambda: (out.append(p.send_message(msg)), done.set()), daemon=True).start()
-        finished = done.wait(5)
+        finished = M.wait_event(done, 5)
         wire = bytes(conn._sock.got)
         case = {"kind": "send-message-once", "oracle": toks[:4], "frame": frame.hex()}
         res.count(("send-message-once", k), sample={"op": "send_message, first write fails after k bytes, next would succeed", "k": k, "result": out[:1], "wire_len": len(wire)} if k == 5 else None)
@@ -513,7 +517,7 @@ def send_message_truthful_case(res):
     msg = secsgem.hsms.HsmsMessage(secsgem.hsms.HsmsLinktestRspHeader(77), b"")
     t0 = time.monotonic()
     threading.Thread(target=lambda: (out.append(p.send_message(msg)), out.append(round(time.monotonic() - t0, 2)), done.set()), daemon=True).start()
-    finished = done.wait(6)
+    finished = M.wait_event(done, 6)
     case = {"kind": "send-message-truthful", "t3": 1, "send_data": "pending 2.5 s, then False"}
     res.count(("send-message-truthful",), sample={"op": "send_message while send_data is pending beyond T3, then fails", "result": out})
     res.bump("send_message_truthful", str(out[:1]))
